@@ -79,6 +79,8 @@ const WALL_BACKSTOP: Duration = Duration::from_secs(90);
 
 /// exit code used when a run neither finishes nor allocates (cannot be contained in-process)
 pub const EXIT_WALL_HANG: i32 = 4;
+/// exit code of a worker that asks to be restarted (it contained several hangs and holds their memory)
+pub const EXIT_RECYCLE: i32 = 5;
 
 pub fn run_case(prop: &'static dyn Prop, case: &Case) -> CaseResult {
     let mut results: Vec<EnvResult> = vec![];
@@ -175,6 +177,7 @@ fn run_env(prop: &'static dyn Prop, case: &Case, env: Env) -> EnvResult {
             let maxs = rt::T_MAXSTEPS.with(|s| s.get());
             let frac = rt::T_MAXFRAC_PPM.with(|s| s.get());
             let calls = rt::T_CALLS.with(|s| s.get());
+            cx.max("max.bytes_allocated_in_one_call", rt::T_MAXBYTES.with(|s| s.get()));
             let _ = tx.send((cx, steps, maxs, frac, calls, sched));
         })
         .expect("spawn run thread");
